@@ -337,23 +337,28 @@ class VizierServicer(vizier_service_pb2_grpc.VizierServiceServicer):
         )
       except custom_errors.NotFoundError:
         active_op_list = []
-      if active_op_list:
-        return active_op_list[0]  # We've found the active one!
-
       start_time = _get_current_time()
-      # Create a new Op if there aren't any active (not done) ops.
-      try:
-        old_op_number = self.datastore.max_suggestion_operation_number(
-            study_name, request.client_id
-        )
-      except custom_errors.NotFoundError:
-        old_op_number = 0
-      new_op_number = old_op_number + 1
-      new_op_name = resources.SuggestionOperationResource(
-          owner_id, study_id, request.client_id, new_op_number
-      ).name
-      output_op = operations_pb2.Operation(name=new_op_name, done=False)
-      self.datastore.create_suggestion_operation(output_op)
+      if active_op_list:
+        # SuggestTrials calls of a study are serialized by the lock above and
+        # always finish their operation before releasing it, so an operation
+        # that is not done here was abandoned by a server that died half-way.
+        # Resume it rather than returning it, otherwise this client would be
+        # handed the abandoned operation forever.
+        output_op = active_op_list[0]
+      else:
+        # Create a new Op if there aren't any active (not done) ops.
+        try:
+          old_op_number = self.datastore.max_suggestion_operation_number(
+              study_name, request.client_id
+          )
+        except custom_errors.NotFoundError:
+          old_op_number = 0
+        new_op_number = old_op_number + 1
+        new_op_name = resources.SuggestionOperationResource(
+            owner_id, study_id, request.client_id, new_op_number
+        ).name
+        output_op = operations_pb2.Operation(name=new_op_name, done=False)
+        self.datastore.create_suggestion_operation(output_op)
 
       # Check how many ACTIVE trials already exist for this client only.
       all_trials = self.datastore.list_trials(study_name)
